@@ -170,3 +170,54 @@ chan_harness! {
         std::mem::forget(rx);
     }
 }
+
+/// Twin with the roles exchanged: the drop of the last Sender is the root; the receiver has
+/// already failed its try_recv (real call, before the drop begins) and its *registration* - the
+/// real `Park::subscribe`, which the worker runs after the context switch - lands at any atomic
+/// step of drop_chan, or after it.  Whatever the order, the receiver must end up resumed exactly
+/// once (by subscribe's own re-check or by drop_chan), otherwise it is parked for ever.
+chan_harness! {
+    #[kani::unwind(4)]
+    fn c07_spsc_last_sender_drop_vs_registering_receiver() {
+        let rx = setup(false);
+        // the receiver's first half: nothing queued, sender alive
+        assert!(rx.inner.try_recv() == Err(TryRecvError::Empty));
+        static mut REGISTERED: bool = false;
+        static mut INNER: *const Arc<InnerQueue<u8>> = std::ptr::null();
+        fn register() {
+            unsafe {
+                REGISTERED = true;
+                np::DEPTH += 1;
+                np::PREEMPTS += 1;
+                let mut park = Park::new(&**INNER);
+                let co = CoroutineImpl::from_raw(CO_RAW as *mut usize);
+                park.subscribe(co);
+                std::mem::forget(park);
+                np::DEPTH -= 1;
+            }
+        }
+        fn hook2() {
+            unsafe {
+                if np::DEPTH == 0 && !REGISTERED && kani::any() {
+                    register();
+                }
+            }
+        }
+        unsafe {
+            INNER = &rx.inner;
+            np::HOOK = Some(hook2);
+            D_DONE = true;
+            drop(TX.take());
+            np::HOOK = None;
+            kani::cover!(REGISTERED && np::PREEMPTS > 0, "the registration landed inside drop_chan");
+            if !REGISTERED {
+                register();
+            }
+            assert!(RESUMED <= 1, "C06: receiver resumed twice");
+            assert!(RESUMED == 1, "C07: the last sender is gone and the registered receiver was never resumed (parked for ever)");
+        }
+        // resumed: it now observes the disconnect
+        assert!(rx.inner.try_recv() == Err(TryRecvError::Disconnected));
+        std::mem::forget(rx);
+    }
+}
